@@ -471,14 +471,15 @@ Theorem tree_total_sr : forall ld, leaf_ok2 ld -> forall bs, small32 bs = true -
 Proof.
   intros ld LD bs Hs. unfold box_sr, small32 in *.
   destruct (sr_loops2 ld LD (S (length bs))) as [HB _].
-  assert (HI : Inv (sr (snew bs))) by (unfold Inv, rlen, BIG, two63 in *; cbn; unfold zlen in *; lia).
-  assert (HS : rlen (sr (snew bs)) < BIG) by (unfold rlen; cbn; lia).
+  assert (HI : Inv (sr (snew bs))) by abstract (unfold Inv, rlen, BIG, two63 in *; cbn; unfold zlen in *; lia).
+  assert (HS : rlen (sr (snew bs)) < BIG) by abstract (unfold rlen; cbn; lia).
   destruct (HB 0%N (snew bs) HI HS) as [r [s' [E [NP [NF [I1 [B1 [P1 [C1 Q1]]]]]]]]].
   exists r, s'. split; [exact E|].
-  assert (NF' : r <> OutOfFuel) by (apply NF; unfold rem, rlen; cbn; unfold zlen; lia).
+  assert (NF' : r <> OutOfFuel) by abstract (apply NF; unfold rem, rlen; cbn; unfold zlen; lia).
+  clear HB NF Q1 E.
   split; [destruct r; [right; eauto|left; reflexivity|contradiction|contradiction]|].
-  unfold rem, rlen, K2, EB in C1. cbn [snew sr rnew rbuf rpos scost] in *.
-  unfold T, tot in *. cbn [cost0 ticks alloc] in *. unfold zlen, lenN in *. lia.
+  unfold rem, rlen, K2, EB in C1. cbn [snew sr rnew rbuf rpos scost] in C1.
+  unfold T, tot in C1. cbn [cost0 ticks alloc] in C1. unfold zlen in C1. unfold tot, lenN. lia.
 Qed.
 
 Theorem tree_total_r : forall ld, leaf_ok2 ld -> forall bs, small32 bs = true ->
@@ -487,13 +488,14 @@ Theorem tree_total_r : forall ld, leaf_ok2 ld -> forall bs, small32 bs = true ->
 Proof.
   intros ld LD bs Hs. unfold box_r, small32 in *.
   destruct (r_loops2 ld LD (S (length bs))) as [HB _].
-  assert (HI : IInv (inew bs)) by (unfold IInv, ip, il, BIG, two63 in *; cbn; unfold zlen, lenN in *; lia).
-  assert (HS : il (inew bs) < BIG) by (unfold il; cbn; unfold zlen, lenN in *; lia).
+  assert (HI : IInv (inew bs)) by abstract (unfold IInv, ip, il, BIG, two63 in *; cbn; unfold zlen, lenN in *; lia).
+  assert (HS : il (inew bs) < BIG) by abstract (unfold il; cbn; unfold zlen, lenN in *; lia).
   destruct (HB 0%N (inew bs) HI HS) as [r [s' [E [NP [NF [B1 [P1 [C1 Q1]]]]]]]].
   exists r, s'. split; [exact E|].
-  assert (NF' : r <> OutOfFuel) by (apply NF; unfold irem, ip, il; cbn; unfold lenN; lia).
+  assert (NF' : r <> OutOfFuel) by abstract (apply NF; unfold irem, ip, il; cbn; unfold lenN; lia).
+  clear HB NF Q1 E.
   split; [destruct r as [[|t]| | |]; [right; left; reflexivity|right; right; eauto|left; reflexivity|contradiction|contradiction]|].
-  unfold KR, ER, ip, il, T, tot in *. cbn [inew ibuf ipos icost cost0 ticks alloc] in *. unfold lenN in *. lia.
+  unfold KR, ER, ip, il, T, tot in C1, P1. cbn [inew ibuf ipos icost cost0 ticks alloc] in C1, P1. unfold tot, lenN in *. lia.
 Qed.
 
 (* the property's allocation clause over trees: every byte string below 32 GiB, any leaf decoder under the old
